@@ -10,7 +10,7 @@ CHECKS = {
                             "blocked bounded-queue and mutex sleepers are covered by the C09 and C08 checks"]},
     "C03": {"scenarios": ["c03"], "quick_budget_s": 50, "thorough_budget_s": 900,
             "real": ["exception paths of task_dispatcher, task_group_context, start_for/start_reduce/for_each/invoke/pipeline tasks, task_group, task_arena::execute delegation, flow graph function_node"]},
-    "C04": {"scenarios": ["c04", "c04b", "c04c"], "quick_budget_s": 50, "thorough_budget_s": 900,
+    "C04": {"scenarios": ["c04", "c04b", "c04c", "c04d"], "quick_budget_s": 50, "thorough_budget_s": 900,
             "real": ["src/tbb/task_group_context.cpp (bind, propagate, cancel), context lists in thread_data, parallel_for as the binder"]},
     "C05": {"scenarios": ["c05"], "quick_budget_s": 50, "thorough_budget_s": 900,
             "real": ["include/oneapi/tbb/parallel_for.h, partitioner.h, blocked_range*.h, blocked_nd_range.h, parallel_for_each.h, parallel_invoke.h + scheduler"],
